@@ -87,8 +87,8 @@ CHECKS = {
     level='other',
     text=('Symbolic proof of the closed-form cell-cycle laws: update_target_volume, update_pressure, is_ready_to_divide (through the vtable of all five cell classes), is_below_min_vol '
           'and initialize_random_properties are executed in irsym with all scalars symbolic (P_max and V_div finite or +inf; sigma zero or not); z3 proves the laws on every feasible path. '
-          'No loops: the only bounds are the case enumeration listed in the evidence. log is uninterpreted; a counterexample whose log value the real logarithm does not take is re-searched with log pinned to its true value at a list of volume ratios, so that it can be replayed natively. Mesh part: a cell of each class that applies internal forces is built and initialised on one tetrahedron (coordinates X0), its nodes are moved to X1 (all 24 coordinates symbolic) and the real apply_internal_forces(dt) runs with the force terms stubbed: the stored volume is the volume enclosed by the mesh as it is now, and target volume, pressure and the removal predicate follow from it.'),
-    note='Trusted: clang lowering (validated per run), irsym, z3, log as uninterpreted function, normal_distribution::operator() stubbed as mean+stddev*Z (Z arbitrary real). The removal loop of the solver is covered by C08.',
+          'No loops: the only bounds are the case enumeration listed in the evidence. log is uninterpreted; a counterexample whose log value the real logarithm does not take is re-searched with log pinned to its true value at a list of volume ratios, so that it can be replayed natively. Mesh part: a cell of each class that applies internal forces is built and initialised on one tetrahedron (coordinates X0), its nodes are moved to X1 (all 24 coordinates symbolic) and the real apply_internal_forces(dt) runs with the force terms stubbed: the stored volume is the volume enclosed by the mesh as it is now, and target volume, pressure and the removal predicate follow from it. Removal part: the real solver (constructor + 3 iterations, I/O and divisions stubbed) on three non-interacting cells of different classes with the minimum volume of every type symbolic: every removal history is a path, and z3 proves that a cell is in the population after iteration k iff its volume was never below its minimum volume up to k (removed at the end of that iteration, never back); native replay.'),
+    note='Trusted: clang lowering (validated per run), irsym, z3, log as uninterpreted function, normal_distribution::operator() stubbed as mean+stddev*Z (Z arbitrary real). The removal loop of the solver is decided by the removal part (its index bookkeeping by C08).',
     technique='symbolic execution of LLVM IR + z3 (LRA/NRA with uninterpreted log)',
     design='3/C04'),
  'C06': dict(
